@@ -164,7 +164,9 @@ PROPS = {
         trusted=TB,
         assumed=[L1, LSTOP],
         explanation="Engine P proves consistency and consistency_indices (outer/inner loops, strict and extended exits, arbitrary keys) "
-        "equal to the greedy partition specification and preprocess_belief_base's refusal of empty/inconsistent bases. Engine B "
+        "equal to the greedy partition specification, preprocess_belief_base's refusal of empty/inconsistent bases, and the diagnostics: "
+        "facts_jointly_satisfiable, _last_layer_size and consistency_diagnostics (every flag equals its definition over the partition "
+        "specification, for the base and for the base augmented by the fact conditionals; without precomputed partitions). Engine B "
         "compares partitions, key variant, diagnostics flags and refusal with the oracle.",
     ),
     "C07": dict(
